@@ -54,6 +54,8 @@ type FuncContract struct {
 	Establishes []Expr // objects whose object invariants this function establishes (constructors / initialisers)
 	Spawns   []*Clause // spawn effects for closures started with `go`
 	AtCalls  map[string][]*Clause // callee name -> obligations at every call of that callee inside this function
+	InterfVar string      // `interference x: list`: at every blocking select of this function other goroutines may have changed the listed locations;
+	Interf    []*ModEntry // the object invariants of x are assumed again afterwards and old() refers to the state after that point
 	Used     bool
 }
 
@@ -414,9 +416,17 @@ func (cs *Contracts) loadContractFile(path, pkgPath string, short map[string]str
 				return fail("bind x = var")
 			}
 			curL.Binds[strings.TrimSpace(parts[0])] = strings.TrimSpace(parts[1])
-		case "modifies":
+		case "modifies", "interference":
 			if curF == nil {
-				return fail("modifies outside a function contract")
+				return fail("%s outside a function contract", word)
+			}
+			if word == "interference" {
+				i := strings.Index(rest, ":")
+				if i < 0 {
+					return fail("interference x: list")
+				}
+				curF.InterfVar = strings.TrimSpace(rest[:i])
+				rest = strings.TrimSpace(rest[i+1:])
 			}
 			rest = cs.expandModSets(rest)
 			for _, item := range splitTop(rest) {
@@ -425,10 +435,17 @@ func (cs *Contracts) loadContractFile(path, pkgPath string, short map[string]str
 					continue
 				}
 				me := &ModEntry{Src: item}
+				add := func() {
+					if word == "interference" {
+						curF.Interf = append(curF.Interf, me)
+					} else {
+						curF.Modifies = append(curF.Modifies, me)
+					}
+				}
 				if strings.HasPrefix(item, "class(") && strings.HasSuffix(item, ")") {
 					// raw heap class, e.g. class("elems:net.IP"): all slice elements of that type
 					me.Class = strings.Trim(item[6:len(item)-1], `"`)
-					curF.Modifies = append(curF.Modifies, me)
+					add()
 					continue
 				}
 				e, err := parseSpec(item)
@@ -454,9 +471,9 @@ func (cs *Contracts) loadContractFile(path, pkgPath string, short map[string]str
 				case EIndex:
 					me.E, me.Index = x.X, x.I
 				default:
-					return fail("bad modifies entry %q", item)
+					return fail("bad %s entry %q", word, item)
 				}
-				curF.Modifies = append(curF.Modifies, me)
+				add()
 			}
 		case "establishes":
 			if curF == nil {
